@@ -29,7 +29,7 @@ ASSUMPTIONS = [
     'explicit defaults are only spelled for eagerly evaluated parameters; nondeterministic functions are excluded',
     'trailing empty argument slots are not generated (the grammar has none)',
 ]
-REQUIRED = {'groups': 300, 'spellings': 1500, 'spelling.keyword': 300, 'spelling.omitted-defaults': 100,
+REQUIRED = {'convention.python_shards': 1, 'groups': 300, 'spellings': 1500, 'spelling.keyword': 300, 'spelling.omitted-defaults': 100,
             'spelling.skipped-slot': 20, 'spelling.call()': 100, 'spelling.method-vs-function': 50,
             'kind.checked': 100, 'family.groups': 100, 'reach.map_args': 1000, 'reach.get_delegate': 1000, 'reach.translate_args': 1000,
             'pr.system.call_func': 100, 'pr.*': 150}
@@ -43,10 +43,16 @@ def literal_default(v):
 
 
 class Mon:
-    def __init__(self, rec):
+    def __init__(self, rec, python_convention=False):
         self.rec = rec
         self.eng = yq.engine({'yaql.limitIterators': 500, 'yaql.memoryQuota': 5000000})
-        self.ctx = yaql.create_context()
+        if python_convention:
+            # the library under the python naming convention: snake_case function and keyword names, still with the
+            # trailing underscores of the host-language spelling stripped
+            from yaql.language import conventions as yconv
+            self.ctx = yaql.create_context(convention=yconv.PythonConvention())
+        else:
+            self.ctx = yaql.create_context()
         self.overloads = cat.build(self.ctx)
         self.family_ctx = None
         self.seen_invalid = set()
@@ -63,7 +69,7 @@ class Mon:
                 explicit = None
                 if orig is not None and prm.key in orig.parameters:
                     explicit = orig.parameters[prm.key].alias
-                prm.kwname = explicit or camel(prm.pyname)
+                prm.kwname = explicit or (prm.pyname.rstrip('_') if python_convention else camel(prm.pyname))
         # enumeration order of the overloads of one layer: the real set order, or forced (ascending / descending by
         # payload name) so that every candidate of a multi-overload name gets to be tried first
         from yaql.language import contexts as yctx
@@ -557,6 +563,9 @@ def plan(tier, seed):
     parts = 16
     shards = [{'name': 'groups-%d' % p, 'kind': 'groups', 'part': p, 'parts': parts, 'tuples': 40 if thorough else 8,
                'timeout': 2400} for p in range(parts)]
+    for p in range(4):
+        shards.append({'name': 'groups-python-convention-%d' % p, 'kind': 'groups', 'part': p, 'parts': 4, 'python': True,
+                       'tuples': 12 if thorough else 3, 'timeout': 2400})
     shards.append({'name': 'kinds', 'kind': 'kinds'})
     for p in range(8 if thorough else 2):
         shards.append({'name': 'families-%d' % p, 'kind': 'families', 'count': 1500 if thorough else 150})
@@ -564,7 +573,9 @@ def plan(tier, seed):
 
 
 def run_shard(spec, rec):
-    mon = Mon(rec)
+    mon = Mon(rec, python_convention=spec.get('python', False))
+    if spec.get('python'):
+        rec.count('convention.python_shards')
     try:
         if spec['kind'] == 'kinds':
             kind_checks(mon, rec)
